@@ -250,6 +250,17 @@ def find_result_var(f, var_decl):
     return None
 
 
+def find_result_defs(f, var_decl):
+    """statement ids of the DeclStmts that initialise the local from a find* call"""
+    out = []
+    for st in f.stmts:
+        if st and st['k'] == 'DeclStmt':
+            for d in st['decls']:
+                if d.get('d') == var_decl and 'init' in d:
+                    out.append(st['i'])
+    return out
+
+
 def var_written_elsewhere(f, var_decl):
     from .locks import classify_access
     n = 0
@@ -281,7 +292,8 @@ def prove_string_pos(f, st, label):
     if a['k'] == 'DeclRefExpr' and a.get('dk') == 'Var':
         recv = find_result_var(f, a.get('d'))
         p = f.cfg.point_of(st['i'])
-        if recv is not None and recv == f.path(st['obj']) and not var_written_elsewhere(f, a.get('d')) and p is not None and npos_guarded(f, p, a.get('d')):
+        if recv is not None and recv == f.path(st['obj']) and not var_written_elsewhere(f, a.get('d')) and p is not None and npos_guarded(f, p, a.get('d')) and \
+                all(q.stable(f, recv, f.cfg.point_of(d_), p) for d_ in find_result_defs(f, a.get('d'))):
             return 'position %s is a find() result on the same string, guarded != npos' % a.get('n')
     if a['k'] == 'CXXMemberCallExpr' and a.get('fn') in ('size', 'length') and f.path(a['obj']) == f.path(st['obj']):
         return 'position is size() of the same string'
@@ -309,6 +321,8 @@ def prove_index_guard(f, st, label):
         # i < size (true edge) / i >= size (false edge) / size > i (true) / size <= i (false)
         if (l == ip and r == sz and ((op == '<' and k == 0) or (op == '>=' and k == 1))) or \
            (l == sz and r == ip and ((op == '>' and k == 0) or (op == '<=' and k == 1))):
+            if not q.stable(f, xp, f.cfg.point_of(cond), p):
+                continue
             return 'index %s is guarded by a comparison with %s' % (ip, sz)
     return None
 
@@ -325,6 +339,8 @@ def prove_find_guard(f, st, label):
     for cond, k, b in f.cfg.controlling_branches(p):
         for c in q.subtree_calls(f, cond):
             if c.get('fn') in ('find', 'count', 'contains') and 'obj' in c and f.path(c['obj']) == xp and c.get('args') and f.path(c['args'][0]) == kp:
+                if not q.stable(f, xp, f.cfg.point_of(cond), p, content=True):
+                    continue
                 return 'key presence tested by %s on a dominating branch' % c.get('fn')
     return None
 
